@@ -71,6 +71,9 @@ func main() {
 	for i, n := 0, r.Pick(4, 30); i < n; i++ {
 		run(r, caseID{"visibility-predicate", r.Seed*5_000_003 + int64(i)})
 	}
+	for i, n := 0, r.Pick(3, 20); i < n; i++ {
+		run(r, caseID{"big-range-predicate", r.Seed*6_000_003 + int64(i)})
+	}
 	for i, n := 0, r.Pick(1, 8); i < n; i++ {
 		run(r, caseID{"engine", r.Seed*3_000_003 + int64(i)})
 	}
@@ -81,6 +84,7 @@ func main() {
 	r.FloorCount("reader_views_overlapping_apply", int64(r.Pick(200, 2000)))
 	r.FloorCount("big_txn_reader_views_overlapping_apply", int64(r.Pick(50, 300)))
 	r.FloorCount("predicate_reader_views_overlapping_apply", int64(r.Pick(150, 1500)))
+	r.FloorCount("range_predicates_over_more_than_4MiB", int64(r.Pick(30, 200)))
 	r.FloorCount("engine_txns", int64(r.Pick(100, 1000)))
 	r.Finish()
 }
@@ -95,6 +99,8 @@ func run(r *ev.Run, id caseID) {
 		runVisibilityBig(r, id)
 	case "visibility-predicate":
 		runVisibilityPredicate(r, id)
+	case "big-range-predicate":
+		runBigRangePredicate(r, id)
 	case "engine":
 		runEngine(r, id)
 	}
@@ -724,6 +730,114 @@ func runVisibilityPredicate(r *ev.Run, id caseID) {
 	r.Eval(1)
 	r.Nontrivial(fmt.Sprint("visibility-predicate", id.Seed))
 	r.Sample(map[string]any{"kind": "visibility-predicate", "static_pairs": nStatic, "apply_calls": 4000})
+}
+
+// runBigRangePredicate: a range predicate holds only if EVERY pair of the range satisfies it, also
+// when the range holds more than the 4 MiB a single read message carries: documents of 1 MiB /
+// 128 B (5-7 MiB together), the one that violates the predicate at every position incl. the last.
+func runBigRangePredicate(r *ev.Run, id caseID) {
+	g := gen.New(id.Seed)
+	t, err := fsmx.Fresh("t", fsm.RecoveryTypeSnapshot)
+	if err != nil {
+		r.Violation("fsm-open", err.Error(), id)
+		return
+	}
+	defer t.Close()
+	m := model.NewTable()
+	var idx uint64
+	n, size := 5+g.R.Intn(3), 1<<20
+	if id.Seed%2 == 1 {
+		n, size = 45000, 128
+	}
+	mk := func(i int, first byte) *pb.Command {
+		v := make([]byte, size)
+		for j := range v {
+			v[j] = 'a'
+		}
+		v[0] = first
+		return &pb.Command{Table: []byte("t"), Type: pb.Command_PUT, Kv: &pb.KeyValue{Key: []byte(fmt.Sprintf("doc/%06d", i)), Value: v}}
+	}
+	var es []sm.Entry
+	for i := 0; i < n; i++ {
+		idx++
+		e := fsmx.Entry(idx, mk(i, 'M'))
+		es = append(es, e)
+		m.Apply(idx, fsmx.Decoded(e))
+		if len(es) == 2000 || i == n-1 {
+			if _, err := t.Update(es); err != nil {
+				r.Violation("update-error", err.Error(), id)
+				return
+			}
+			es = nil
+		}
+	}
+	positions := []int{n - 1, n - 2, n / 2, 0, n - 1}
+	for round, pos := range positions {
+		// document pos violates "value < S"; in the last round nothing does
+		if round < len(positions)-1 {
+			idx++
+			e := fsmx.Entry(idx, mk(pos, 'Z'))
+			if _, err := t.Update([]sm.Entry{e}); err != nil {
+				r.Violation("update-error", err.Error(), id)
+				return
+			}
+			m.Apply(idx, fsmx.Decoded(e))
+		}
+		cmp := []*pb.Compare{{Key: []byte("doc/"), RangeEnd: []byte("doc0"), Result: pb.Compare_LESS, Target: pb.Compare_VALUE, TargetUnion: &pb.Compare_Value{Value: []byte("S")}}}
+		marker := []byte(fmt.Sprintf("round%d", round))
+		succ := []*pb.RequestOp{{Request: &pb.RequestOp_RequestPut{RequestPut: &pb.RequestOp_Put{Key: []byte("branch"), Value: append([]byte("success-"), marker...)}}}}
+		fail := []*pb.RequestOp{{Request: &pb.RequestOp_RequestPut{RequestPut: &pb.RequestOp_Put{Key: []byte("branch"), Value: append([]byte("failure-"), marker...)}}}}
+		what := fmt.Sprintf("%d documents of %d B (%.1f MiB) under doc/, document %d of them holds a value > \"S\" (round %d: %v), predicate [doc/, doc0) < \"S\"", n, size, float64(n*size)/(1<<20), pos, round, round < len(positions)-1)
+		// read-only path
+		ro, err := t.Txn(&pb.TxnRequest{Compare: cmp, Success: []*pb.RequestOp{{Request: &pb.RequestOp_RequestRange{RequestRange: &pb.RequestOp_Range{Key: []byte("branch")}}}}})
+		if err != nil {
+			r.Violation("read-error", err.Error(), id)
+			return
+		}
+		exp := m.EvalCompare(cmp)
+		if ro.Succeeded != exp {
+			r.Violation("readonly-lookup-succeeded", fmt.Sprintf("read-only transaction: succeeded=%v, the reference says %v; %s", ro.Succeeded, exp, what), witness{Case: id, Commands: []string{what}})
+			return
+		}
+		// log path
+		idx++
+		e := fsmx.Entry(idx, &pb.Command{Table: []byte("t"), Type: pb.Command_TXN, Txn: &pb.Txn{Compare: cmp, Success: succ, Failure: fail}})
+		out, err := t.Update([]sm.Entry{e})
+		if err != nil {
+			r.Violation("update-error", err.Error(), id)
+			return
+		}
+		res := m.Apply(idx, fsmx.Decoded(e))
+		if (out[0].Value == 1) != res.TxnSucceeded {
+			r.Violation("succeeded-flag", fmt.Sprintf("transaction in the log: succeeded=%v, the reference says %v; %s", out[0].Value == 1, res.TxnSucceeded, what), witness{Case: id, Commands: []string{what}})
+			return
+		}
+		got, err := t.Range(&pb.RequestOp_Range{Key: []byte("branch")})
+		if err != nil || len(got.Kvs) != 1 || string(got.Kvs[0].Value) != string(m.M["branch"]) {
+			r.Violation("txn-post-state", fmt.Sprintf("after the transaction the key branch holds %q, the reference says %q; %s", valueOfKvs(got), m.M["branch"], what), witness{Case: id, Commands: []string{what}})
+			return
+		}
+		// restore the document
+		idx++
+		e = fsmx.Entry(idx, mk(pos, 'M'))
+		if _, err := t.Update([]sm.Entry{e}); err != nil {
+			r.Violation("update-error", err.Error(), id)
+			return
+		}
+		m.Apply(idx, fsmx.Decoded(e))
+		r.Count("range_predicates_over_more_than_4MiB", 2)
+		r.Count("txns", 2)
+	}
+	r.Eval(1)
+	r.Nontrivial(fmt.Sprint("big-range-predicate", id.Seed))
+	r.Sample(map[string]any{"kind": "big-range-predicate", "documents": n, "document_size": size})
+}
+
+func valueOfKvs(rr *pb.ResponseOp_Range) string {
+	if rr == nil || len(rr.Kvs) != 1 {
+		return "<absent>"
+	}
+	return string(rr.Kvs[0].Value)
 }
 
 func padded(tag []byte, size int) []byte {
